@@ -236,6 +236,23 @@ class Builder:
                     for _ in range(r.choice([1, 1, 2])):
                         k = self.emit({"op": "create_pin", "on": ph})
                         pins.append("e%d.0" % k)
+        if c.get("late_permute"):
+            # the pins INSIDE a port of a definition that already has (wired) instances change places, or a pin is put in
+            # front: the instances hold their outer pins in the old order, the port lists them in the new one
+            for rec3 in self.defs:
+                if rec3["h"] == d or r.random() >= c["late_permute"]:
+                    continue
+                wide = [(ph, pins) for ph, pins in rec3["ports"] if len(pins) >= 2]
+                if wide and r.random() < 0.7:
+                    ph, pins = r.choice(wide)
+                    k = r.randrange(1, len(pins))
+                    pins[:] = pins[k:] + pins[:k] if r.random() < 0.6 else list(reversed(pins))
+                    self.emit({"op": "set_pins", "on": ph, "xs": list(pins)})
+                elif rec3["ports"]:
+                    ph, pins = r.choice(rec3["ports"])
+                    k = self.emit({"op": "ipin_new"})
+                    self.emit({"op": "add_pin", "on": ph, "x": "e%d.0" % k, "position": 0})
+                    pins.insert(0, "e%d.0" % k)
         i = self.emit({"op": "set_top", "on": self.netlist, "x": d})
         self.top = "e%d.0" % i
         if c.get("top_name", True):
